@@ -451,7 +451,7 @@ def render(cat, charset, rng, sp):
 
 # ---------------------------------------------------------------- catalog generator
 LETTERS = 'abcXYZ019 fF'
-NONASCII = 'éßñЖя中日本語ก€·«»ąęŁ\xa0\xad'
+NONASCII = 'éßñЖя中日本語ก€·«»ąęŁ\xa0\xad٣３๓'     # the last three are decimal digits outside ASCII (what follows a short octal escape must not be read as part of it)
 # character pairs whose encoding in a legacy 8-bit charset is also a valid UTF-8 sequence
 # (ISO-8859-2 / CP1250 D3 A3, D3 B3, C5 B1...; KOI8-R D0 A3, D1 B3; CP1251 D0 B3 ...): spelled as escapes they tell
 # "decoded with the charset of the file" from "decoded with some other charset first"
@@ -471,7 +471,7 @@ def gen_catalog(rng, charset_name, rich, extra_alpha=()):
     # texts that look like escape sequences once their backslash is spelled as "\\\\": a literal backslash followed by x + hex digit(s),
     # octal digits or an escape letter (the loader must not read the pair as an escape)
     alpha += ['\\x5', '\\xA', '\\x5z', '\\x', '\\7', '\\12', '\\n', '\\t', '\\"', '\\\\x41', 'C:\\x1\\bin']
-    calpha = [c for c in alpha if c not in '\n'] + [' ', '#', ',', ':', '|', '~', '.']
+    calpha = [c for c in alpha if c not in '\n'] + [' ', '#', ',', ':', '|', '~', '.'] + list('=!-*/@<>([{_+&?$^%;\'`')
 
     def ctext(nonempty=True):
         while True:
@@ -784,6 +784,13 @@ def check(ctx):
                 ctx.fail('stderr-warning', {'string': s}, 'polib_unescape makes CPython print a SyntaxWarning on stderr',
                          finding='D14' if bad_escape_present(s) else None)
 
+    # ---- (a2) hexadecimal escapes with more than two digits: gettext (po-lex.c, like C) takes every hex digit and keeps the low 8 bits
+    for sp, want in [('a\\x0cb', 'a\xcb'), ('\\x41BC', '\xbc'), ('\\x0041', 'A'), ('\\xe9e9z', '\xe9z'), ('\\x00a9\\n', '\xa9\n')]:
+        r = impl_unescape((sp, 'ISO-8859-1'))
+        ctx.evaluations += 1
+        if r != 'ok %s 0' % enc_str(want):
+            ctx.fail('hex-escape-length', {'string': sp, 'charset': 'ISO-8859-1', 'gettext_reads': repr(want)},
+                     'polib_unescape gives %s; gettext reads every hex digit of the escape (low 8 bits kept)' % r, finding='D29')
     # ---- (b) the printer family
     css = css0
     ctx.stats['charsets'] = len(css)
